@@ -74,16 +74,45 @@ def got_rows(res, hrows):
 
 
 def target_codes():
+    """Code objects to schedule: every function of hszinc/grid_filter.py that runs while a filter is *compiled* and does
+    not run while a compiled filter is *evaluated* on a row - discovered dynamically (PY_START recorder), so that a
+    refactoring of the compiler (helper classes, generators) stays covered and per-row helpers do not blow up the
+    schedule space."""
+    import hszinc
     from hszinc import grid_filter as gf
-    codes = []
-    names = []
-    for obj in (gf.filter_function, getattr(gf._filter_function, '__wrapped__', None), gf._FnWrapper.__init__,
-                gf._FnWrapper.get, gf._FnWrapper.__del__):
-        co = getattr(obj, '__code__', None)
-        if co is not None:
-            codes.append(co)
-            names.append(co.co_name)
-    return codes, names
+    mon = sys.monitoring
+    fname = gf.__file__
+    seen = {'compile': set(), 'eval': set()}
+    phase = ['compile']
+
+    def on_start(code, offset):
+        if code.co_filename == fname:
+            seen[phase[0]].add(code)
+    try:
+        mon.use_tool_id(2, 'vf-discover')
+    except ValueError:
+        pass
+    mon.register_callback(2, mon.events.PY_START, on_start)
+    mon.set_events(2, mon.events.PY_START)
+    try:
+        gf._filter_function.cache_clear()
+        g = hszinc.Grid(version='3.0', columns=[('a', []), ('r', [])])
+        g.append({'id': hszinc.Ref('x'), 'a': 1.0})
+        g.append({'a': 'm', 'r': hszinc.Ref('x')})
+        fns = [gf.filter_function(t) for t in ('a == 5 and not r or r->a < 2kg', 'a == "m" or a', '(a != `u`) and r')]
+        gf._filter_function.cache_clear()      # finalisers of the wrappers are compile-side too
+        phase[0] = 'eval'
+        for fn in fns:
+            for row in g:
+                fn(g, row)
+    finally:
+        mon.set_events(2, 0)
+        mon.free_tool_id(2)
+    codes = sorted(seen['compile'] - seen['eval'], key=lambda c: (c.co_firstlineno, c.co_name))
+    # generated functions and pyparsing parse-action lambdas that only shuffle tokens carry no shared state, but are
+    # harmless to include; module-level code (<module>) cannot run again
+    codes = [c for c in codes if c.co_name != '<module>' and not c.co_name.startswith('_gen_hsfilter_')]
+    return codes, ['%s:%d' % (c.co_name, c.co_firstlineno) for c in codes]
 
 
 def shards(tier, seed):
@@ -170,6 +199,20 @@ def run_shard(spec, ctx):
             if j % 100 == 99:
                 for i in hot:
                     check_one(i, 'hot-filter-after-many-compilations', {'phase': 'hot-reuse', 'j': j, 'i': i})
+        # phase 4c: filters that share a long common prefix (60 leading blanks) - the cache key is the whole text
+        for i in range(0, 120):
+            ast, text = fam[i]
+            exp = expected_rows(ast, rows)
+            ctx.case('hist', 'long-common-prefix', i)
+            try:
+                got = got_rows(g.filter(' ' * 60 + text), hrows)
+            except Exception as e:   # noqa
+                got = 'raised %s' % type(e).__name__
+            ctx.count('history results compared')
+            if got != exp:
+                ctx.violation({'part': 'history', 'kind': 'filter', 'symptom': 'wrong-rows', 'features': ['long-common-prefix']},
+                              'filter %r (after 60 blanks) returned %r, expected %r' % (text, got, exp), {'phase': 'prefix', 'i': i})
+                break
         # phase 5: function objects obtained before their eviction still answer right
         for i, fn in kept:
             ctx.case('hist', 'kept-function', i)
@@ -221,7 +264,7 @@ def run_shard(spec, ctx):
             inter = 0
             last = None
             for tid, fn, line in s.trace:
-                if last is not None and tid != last and fn in ('_filter_function', '__init__'):
+                if last is not None and tid != last and fn not in ('filter_function', '<start>'):
                     inter += 1
                 last = tid
             ctx.count('switches inside the compile window', inter)
@@ -249,11 +292,14 @@ def run_shard(spec, ctx):
                 except Exception as e:   # noqa
                     ctx.violation({'part': 'schedule', 'kind': 'filter', 'symptom': 'raises-later:' + type(e).__name__, 'features': feats},
                                   'after schedule %r the cached filter %r raises %s' % (ov, fam[idx][1], type(e).__name__), case)
-        stats = sched.explore(codes, make_ops, check, spec['bound'], max_schedules=4000 if ctx.tier == 'quick' else 60000)
+        stats = sched.explore(codes, make_ops, check, spec['bound'], max_schedules=1500 if ctx.tier == 'quick' else 40000)
         ctx.count('distinct interleavings (trace fingerprints)', len(stats['fingerprints']))
         ctx.count('max decision points in one execution', 0)
-        ctx.note('threads=%d bound=%d prefill=%d: %d schedules, %d distinct interleavings, up to %d decision points; instrumented: %s' % (
-            k, spec['bound'], spec['prefill'], stats['schedules'], len(stats['fingerprints']), stats['max_decisions'], ','.join(names)))
+        ctx.note('threads=%d bound=%d prefill=%d: %d schedules (by number of preemptions %r, %d left unexplored by the cap), %d distinct '
+                 'interleavings, up to %d decision points; instrumented: %s' % (
+                     k, spec['bound'], spec['prefill'], stats['schedules'], stats['by_preemptions'], stats['left_unexplored'],
+                     len(stats['fingerprints']), stats['max_decisions'], ','.join(names)))
+        ctx.count('single-preemption schedules executed', stats['by_preemptions'].get(1, 0))
         ctx.cls('schedules', 'threads=%d' % k, 'bound=%d' % spec['bound'], 'prefill=%d' % spec['prefill'])
         ctx.sample({'threads': k, 'bound': spec['bound'], 'prefill': spec['prefill'], 'schedules': stats['schedules'],
                     'distinct_interleavings': len(stats['fingerprints']), 'instrumented_functions': names})
